@@ -39,6 +39,9 @@ def jobs(tier):
                             continue
                         js.append(("job_restore", dict(_name="q=%s %s k=%d lens=%s msg=%s" % (qn, cls, k, lens, shape),
                                                        qn=qn, cls=cls, k=k, lens=lens, shape=shape)))
+    for cls in "ABS":      # long inputs (a certificate as identity, a long passphrase): kept as single integers
+        js.append(("job_restore", dict(_name="q=11 %s k=1 long inputs (pw 2100, ids 700/5000 bytes)" % cls, qn="11", cls=cls, k=1,
+                                       lens=(2100, 700, 5000), shape="full")))
     for g in ("I1024", "I2048", "I3072"):
         js.append(("job_int_scalar_codec", dict(_name="real %s: every scalar of [0,q) survives scalar_to_bytes/bytes_to_scalar" % g, gname=g)))
     js.append(("job_ed_scalar_codec", dict(_name="real Ed25519: every scalar of [0,L) survives the scalar codec")))
@@ -165,8 +168,24 @@ def oracle_restore(cls, k, shape, side, mode, pw, idA, idB, x):
                 return K[c](pw, idSymmetric=idA, params=params, entropy_f=e), e
             return K[c](pw, idA=idA, idB=idB, params=params, entropy_f=e), e
         for sd in sorted({side, SIDE_BYTE[pc], SIDE_BYTE[cls], 0x43}):
-            for md, xs in [(m_, x % q) for m_ in sorted({mode, "own", "peer", "junk"})] + [("peer", 0), ("peer", 1), ("peer", q - 1)]:
+            for md, xs in [(m_, x % q) for m_ in sorted({mode, "own", "peer", "junk"})] + [("peer", 0), ("peer", 1), ("peer", q - 1), ("long", 3 % q)]:
+                if md == "long":           # long password / identities (restore must not depend on their size)
+                    pw_, idA_, idB_ = pw, idA, idB
+                    pw, idA, idB = b"P" * 3000, b"\x30\x82" + bytes(range(256)) * 8, b"i" * 70000
                 a, ent = mk(cls, xs)
+                if md == "long":
+                    own = a.start()
+                    try:
+                        b = K[cls].from_serialized(a.serialize(), params=params)
+                        peer_msg = mk(pc, (xs + 1) % q)[0].start()
+                        oa, ob = C.finish_outcome(a, peer_msg), C.finish_outcome(b, peer_msg)
+                    except Exception as e:
+                        pw, idA, idB = pw_, idA_, idB_
+                        return (True, "restore of a session with a %d-byte password and %d/%d-byte identities raised %r on %s" % (3000, 2050, 70000, e, nm))
+                    pw, idA, idB = pw_, idA_, idB_
+                    if oa != ob:
+                        return (True, "restored long-input session finishes differently on %s" % nm)
+                    continue
                 own = a.start()
                 n0 = len(ent.calls)
                 before = dict(a.__dict__)
